@@ -11,6 +11,8 @@
    where documented, largest value of the field width and the first beyond) x every public call: the request carries the value
    in the documented place (table = NnasSet.fields / NascSet.fields of the Lean model, proved for all values), has the fields it
    has for ordinary values, is not refused; sequences on one object (ordinary value, call, boundary value, call).
+   Settings under hostile working directories (harness/c20_cwd.py); request callbacks that fail with connection-loss errors
+   (harness/c20_cbfail.py): nothing leaves the process except through the callback.
 5. Transport knobs in behaviour (harness/api_behaviour.py) and the nex.* settings at the consumer that puts structures on the wire
    (harness/api_wire.py): a real RMCClient on every kind of connection and negotiated minor version, client and server side.
 """
@@ -724,6 +726,13 @@ def run(ctx):
                 "BackEndClient / AuthenticationClient calls against a raw PRUDP endpoint and real rmc.serve / serve_on_transport against a raw PRUDP client, several "
                 "calls per connection: request / response bodies and decoded values equal the encoding the caller's settings describe (independent encoder; "
                 "Lean model NxModel/Api/Wire.lean). "
+                "working directory (harness/c20_cwd.py): Settings() / Settings(name) / load / default / reset / copy for the four shipped names in fresh interpreters whose "
+                "working directory is each of 9 synthetic layouts (the names as directories / stray files with other values / garbage / empty, <name>.cfg and "
+                "files/config/<name>.cfg look-alikes, the mixture) and the existing directories of the tree under test (examples/, nintendo/, ...), started there, chdir after "
+                "import, chdir mid-sequence: typed values of the shipped files after every step; replayed through the Lean heap model. "
+                "failing callback (harness/c20_cbfail.py): every public call of the seven callback clients x 11 connection-loss errors x first / second / every invocation "
+                "failing x with / without configured host and context, all other ways to the network replaced by spies: 0 requests outside the callback, configured "
+                "host / context on every invocation. "
                 "A case is non-trivial when it "
                 "reaches the code under test; distinct = distinct (kind, inputs)")
     api_inventory.run(ctx)
